@@ -217,6 +217,17 @@ impl<VM: VMBinding> MonotonePageResource<VM> {
     /// TODO: I am not sure why this is unsafe.
     pub unsafe fn reset(&self) {
         let mut guard = self.sync.lock().unwrap();
+        #[cfg(mmtk_verif)]
+        if let MonotonePageResourceConditional::Contiguous { start, .. } = guard.conditional {
+            crate::verif::verif_emit_range_release("monotone.reset", start, guard.sentinel);
+        } else {
+            // every chunk of the space goes back: name the space by one of its chunks
+            crate::verif::verif_emit_range_release(
+                "monotone.reset.discontiguous",
+                guard.current_chunk,
+                Address::ZERO,
+            );
+        }
         self.common().accounting.reset();
         self.release_pages(&mut guard);
         drop(guard);
@@ -271,6 +282,8 @@ impl<VM: VMBinding> MonotonePageResource<VM> {
                 _ => unreachable!(),
             };
             let pages = bytes_to_pages_up(top - space_start);
+            #[cfg(mmtk_verif)]
+            crate::verif::verif_emit_range_release("monotone.reset_cursor", cursor, guard.sentinel);
             self.common.accounting.reset();
             self.common.accounting.reserve_and_commit(pages);
             guard.current_chunk = chunk;
